@@ -2,6 +2,28 @@ use num::{BigInt, BigRational, One, Signed, Zero};
 use std::cell::RefCell;
 use std::panic::{catch_unwind, AssertUnwindSafe};
 
+pub static LAST_EMIT: std::sync::atomic::AtomicU64 = std::sync::atomic::AtomicU64::new(0);
+pub fn now_secs() -> u64 {
+    std::time::SystemTime::now().duration_since(std::time::UNIX_EPOCH).map(|d| d.as_secs()).unwrap_or(0)
+}
+/// Watchdog: a case that produces nothing for NTV_STALL seconds is reported as a hang (exit 99), so
+/// that `check` can name the input instead of waiting for its own (much longer) timeout.
+pub fn start_watchdog() {
+    let stall: u64 = std::env::var("NTV_STALL").ok().and_then(|s| s.parse().ok()).unwrap_or(0);
+    if stall == 0 {
+        return;
+    }
+    LAST_EMIT.store(now_secs(), std::sync::atomic::Ordering::Relaxed);
+    std::thread::spawn(move || loop {
+        std::thread::sleep(std::time::Duration::from_secs(2));
+        let last = LAST_EMIT.load(std::sync::atomic::Ordering::Relaxed);
+        if now_secs().saturating_sub(last) > stall {
+            eprintln!("ntvh: no case finished for {stall} s: the implementation does not return");
+            std::process::exit(99);
+        }
+    });
+}
+
 pub struct Ctx {
     pub rng: SplitMix,
     pub thorough: bool,
@@ -21,6 +43,7 @@ impl Ctx {
         }
     }
     pub fn emit(&mut self, op: &str, args: &[String], answer: String) {
+        LAST_EMIT.store(now_secs(), std::sync::atomic::Ordering::Relaxed);
         let mut s = String::from(op);
         for a in args {
             s.push('\t');
